@@ -251,7 +251,15 @@ func (e *Exec) deadlock() {
 
 // schedPoint: a point where other threads may interleave.
 func (e *Exec) schedPoint(fr *frame) {
-	if len(e.threads) <= 1 {
+	if len(e.threads) <= 1 || e.cfg.MarkOnly {
+		return
+	}
+	e.reschedule(fr.th, true)
+}
+
+// markPoint: zzrt.Mark, the only preemption points under ZZMARKONLY=1 (message boundaries).
+func (e *Exec) markPoint(fr *frame) {
+	if len(e.threads) <= 1 || !e.cfg.MarkOnly {
 		return
 	}
 	e.reschedule(fr.th, true)
